@@ -174,13 +174,40 @@ def work_heavy(ctx, z):
         check_format(ctx, b, fmt, 'heavy:Z=%d' % z)
 
 
+def layout_models(ctx, b, label):
+    """the layouts that are modelled and proved (coq/Model/<Format>*.v): the text the writer returns must be the text the
+    extracted model writes, byte for byte - this is what ties the per-format no-number-lost theorems to the code
+    (the functions are those of the C03 run, which also compares the read-back)"""
+    from . import c03
+    for f in (c03.nwchem_whole, c03.g94_whole, c03.lmol_layout, c03.vlx_layout, c03.molcas_layout):
+        f(ctx, b, label)
+    for wf in c03.WHOLE_FORMATS:
+        c03.whole_file(ctx, b, label, wf)
+    for mf in c03.MORE_FORMATS:
+        c03.more_format(ctx, b, label, mf)
+
+
+def work_layout_store(ctx, item):
+    name, version = item
+    r = store.get_basis(name, version)
+    if r[0] != 'ok':
+        return
+    b = store.restrict(r[1], ctx.rng, 200 if ctx.thorough() else 3)
+    layout_models(ctx, b, '%s/%s[%s]' % (name, version, ','.join(b['elements'])))
+
+
+def work_layout_generated(ctx, seed):
+    rng = random.Random(seed)
+    layout_models(ctx, gen.gen_basis(rng), 'gen:%d' % seed)
+
+
 def run(ctx):
     ctx.rule = ('for store basis sets (element subsets) and generated dictionaries x output formats: the numbers the extracted model predicts '
                 '(translated function-type gate, the writer\'s translated normalisation pipeline run by the manipulation model, then every '
                 'exponent and every non-zero coefficient of contractions with >= 2 non-zero entries) and all ECP gaussian exponents / '
                 'coefficients / electron counts must occur in the text by exact decimal value (D read as E); every element named; '
                 'unsupported function types refused; acesii and crystal may round, ricdwrap is orbital only. Non-trivial = every case')
-    ctx.trusted.append('the layout code of the writers is a black box: the decision for it is containment of a proved-complete prediction, explored not proved')
+    ctx.trusted.append('the layout code of the writers that have no model under coq/Model is a black box: the decision for it is containment of a proved-complete prediction, explored not proved; the modelled layouts are compared with the writers byte for byte')
     md = store.metadata()
     if ctx.thorough():
         pairs = store.all_pairs(md)
@@ -194,6 +221,9 @@ def run(ctx):
     store.parallel(ctx, work_generated, [ctx.seed * 59 + i for i in range(ctx.budget(80, 4000))])
     store.parallel(ctx, work_patho, list(range(len(gen.PATHOLOGICAL) * ctx.budget(1, 20))))
     store.parallel(ctx, work_heavy, [86, 96, 97, 98, 99, 103, 104, 118])
+    if ctx.model is not None:
+        store.parallel(ctx, work_layout_store, pairs if ctx.thorough() else pairs[:12])
+        store.parallel(ctx, work_layout_generated, [ctx.seed * 61 + i for i in range(ctx.budget(20, 1500))])
 
 
 def replay(ctx, rec):
